@@ -293,7 +293,7 @@ Theorem C04_children_after_text :
     let node := ANode (Some (nm0 :: nm)) (Some (v0 :: value)) rp at_ ch sc in
     html_element c parent node index items st =
       close_part c parent node index items
-        (html_children c node (text_part c (v0 :: value) (open_part c parent node index items st))).
+        (html_children c node (text_part c (v0 :: value) ch (open_part c parent node index items st))).
 Proof. exact children_after_text. Qed.
 Print Assumptions C04_children_after_text.
 
